@@ -435,3 +435,185 @@ pub fn ord_runs_cases(prop: &'static str, family: &'static str, coll: &'static s
         })
         .boxed()
 }
+
+// ------------------------------------------------------------------------------------------------
+// huge structures (size thresholds, deep paths, arenas of 10^4..10^6 slots)
+
+/// sizes around the powers of two between 2^12 and 2^18 and the entry count (196 606) at which a
+/// monotone fill reaches a path of 33 nodes
+pub const HUGE_SIZES: &[i64] = &[4000, 4100, 5000, 8200, 9000, 16400, 20000, 33000, 40000, 65500, 65600, 70000, 100_000, 131_100, 140_000, 197_000, 270_000];
+pub const HUGE_CAPS: &[i64] = &[8, 0, 8, 1, 300, 4096, 5000, 65536, 65537, 70000, 131_072, 300_000];
+
+fn huge_sizes(max: i64) -> BoxedStrategy<i64> {
+    let v: Vec<i64> = HUGE_SIZES.iter().copied().filter(|n| *n <= max).collect();
+    pick(&v)
+}
+
+/// bulk fill / operations / (clear / bulk refill / operations) on map and set collections, no
+/// per-step snapshots: structural checkpoints after every bulk, every clear and at the end, sampled
+/// observation battery at the end
+pub fn ord_huge_cases(prop: &'static str, family: &'static str, coll: &'static str, vals: Vec<&'static str>, w: [u32; 10], max: i64) -> BoxedStrategy<Case> {
+    (huge_sizes(max), pick(HUGE_CAPS), pick(&vals), 0..=2i64, 0..=3u8, 0..=2i64)
+        .prop_flat_map(move |(n, cap, val, order, second, order2)| {
+            // lists: only appending fills (an insertion anywhere else moves O(n) entries)
+            let order = if coll == "list" { 0 } else { order };
+            let u = 2 * n + 10;
+            let table = ord_table(u, &w);
+            let n2s: Vec<i64> = vec![n / 2, n, n + 1000, (2 * n).min(max.max(n))];
+            (ops_strategy(&table, 0..=40), ops_strategy(&table, 0..=40), pick(&n2s)).prop_map(move |(a, b, n2)| {
+                let mut c = Case::new(prop, family);
+                c.set("coll", coll).set("val", val).set("cap", cap).set("U", u).set("snap", 0).set("dense", 0);
+                c.ops.push(RawOp::new(O_BULK, &[n, order]));
+                c.ops.extend(a);
+                if second >= 1 {
+                    c.ops.push(RawOp::new(O_CLEAR, &[]));
+                    if second >= 2 {
+                        c.ops.push(RawOp::new(O_BULK, &[n2, if coll == "list" { 0 } else { order2 }]));
+                    }
+                    c.ops.extend(b);
+                }
+                c
+            })
+        })
+        .boxed()
+}
+
+/// the same shape for the expiring-key collections: `bulk n order expiry-pattern`, operations,
+/// (clear, refill, operations), export
+pub fn key_huge_cases(prop: &'static str, coll: &'static str, w: [u32; 8], max: i64, export: bool) -> BoxedStrategy<Case> {
+    (huge_sizes(max), pick(HUGE_CAPS), 0..=2i64, 0..=3i64, 0..=3u8, 0..=2i64)
+        .prop_flat_map(move |(n, cap, order, pattern, second, order2)| {
+            // "list" / "both": only appending fills (an insertion anywhere else moves O(n) entries)
+            let order = if coll != "tree" { 0 } else { order };
+            let order2 = if coll != "tree" { 0 } else { order2 };
+            let coll = if coll == "both" { "tree" } else { coll };
+            let table = key_table(n + 10, 40, 3, &w);
+            let n2s: Vec<i64> = vec![n / 2, n, n + 1000];
+            (ops_strategy(&table, 0..=30), ops_strategy(&table, 0..=30), pick(&n2s), 0..=3i64, 0..=3i64).prop_map(move |(a, b, n2, pattern2, dt)| {
+                let mut c = Case::new(prop, "key");
+                c.set("coll", coll).set("cap", cap).set("U", n + 10).set("snap", 0);
+                c.ops.push(RawOp::new(K_BULK, &[n, order, pattern]));
+                c.ops.extend(a);
+                if second >= 1 {
+                    c.ops.push(RawOp::new(K_CLEAR, &[0]));
+                    if second >= 2 {
+                        c.ops.push(RawOp::new(K_BULK, &[n2, order2, pattern2]));
+                    }
+                    c.ops.extend(b);
+                }
+                if export {
+                    c.ops.push(RawOp::new(K_EXPORT, &[dt]));
+                }
+                c
+            })
+        })
+        .boxed()
+}
+
+/// Bursts of 100-320 inserts into one or two hot buckets (lists of 128+ / 256+ copies), a jump of
+/// the clock that expires all of them at once, then queries: whole lists expire together, while the
+/// neighbouring places hold short lists with a few expired copies of their own.
+pub fn seg_mass_expiry_cases(prop: &'static str) -> BoxedStrategy<Case> {
+    let doms: Vec<(i64, i64, &'static str)> = vec![(0, 32, "i32"), (0, 128, "i32"), (-10240, 25601, "i32"), (5, 17, "i32"), (0, 1000, "i64"), (0, 1i64 << 33, "i64")];
+    (pick(&doms), 0..=29i64, 0..=2i64)
+        .prop_flat_map(move |((lo, dlen, rt), base, width)| {
+            let hot = base..=base + width;
+            let burst = vec![
+                spec(20, S_INS, &[hot.clone(), 0..=1, hot.clone(), 0..=1, 1..=3]),
+                spec(6, S_PINS, &[hot.clone(), 0..=1, 1..=3]),
+                spec(3, S_INS, &[0..=31, 0..=3, 0..=31, 0..=3, 0..=4]),
+                spec(1, S_QUERY, &[0..=31, 0..=3, 0..=31, 0..=3, 0..=35]),
+                spec(1, S_ADV, &[0..=1]),
+            ];
+            let looks = vec![
+                spec(3, S_QUERYALL, &[]),
+                spec(3, S_QUERY, &[0..=31, 0..=3, 0..=31, 0..=3, 0..=35]),
+                spec(2, S_QUERY, &[hot.clone(), 0..=1, hot.clone(), 0..=1, 0..=35]),
+                spec(1, S_PQUERY, &[0..=31, 0..=3]),
+            ];
+            let phase = (ops_strategy(&burst, 100..=320), 4..=12i64, ops_strategy(&looks, 1..=6));
+            prop::collection::vec(phase, 1..=3).prop_map(move |phases| {
+                let mut c = Case::new(prop, "seg");
+                c.set("lo", lo).set("len", dlen).set("rtype", rt);
+                for (a, adv, b) in phases {
+                    c.ops.extend(a);
+                    c.ops.push(RawOp::new(S_ADV, &[adv]));
+                    c.ops.extend(b);
+                }
+                c
+            })
+        })
+        .boxed()
+}
+
+// ------------------------------------------------------------------------------------------------
+// long churn with sparse observations: hundreds of mutations between two looks, tiny universes, so
+// that state carried from one observation to the next (caches keyed on the last query, generation
+// counters, amortised work every k-th operation) meets the same keys and slots again much later
+
+pub fn key_sparse_cases(prop: &'static str, coll: &'static str) -> BoxedStrategy<Case> {
+    (pick(&[2i64, 3, 4, 6]), caps(), 1..=3i64, 0..=2u32)
+        .prop_flat_map(move |(u, cap, dmax, looks)| {
+            let table = vec![
+                spec(40, K_INS, &[0..=u - 1, 1..=dmax]),
+                spec(30, K_ADV, &[1..=2]),
+                spec(4, K_ADV, &[0..=0]),
+                spec(1 + looks, K_GET, &[0..=u + 1]),
+                spec(1, K_FL, &[0..=u + 1]),
+                spec(1, K_FLE, &[0..=u + 1]),
+                spec(1, K_FLEBY, &[0..=u + 1, 0..=2]),
+            ];
+            ops_strategy(&table, 600..=3000).prop_map(move |ops| {
+                let mut c = Case::new(prop, "key");
+                c.set("coll", coll).set("cap", cap).set("U", u).set("snap", 0);
+                c.ops = ops;
+                c
+            })
+        })
+        .boxed()
+}
+
+pub fn ord_sparse_cases(prop: &'static str, family: &'static str, coll: &'static str, vals: Vec<&'static str>) -> BoxedStrategy<Case> {
+    (pick(&[2i64, 3, 4, 8]), caps(), pick(&vals), 0..=2u32)
+        .prop_flat_map(move |(u, cap, val, looks)| {
+            let steps = if family == "set" { 1 } else { 0 };
+            let table = vec![
+                spec(40, O_INS, &[0..=u - 1]),
+                spec(30, O_DEL, &[0..=u - 1, 1..=3]),
+                spec(6, O_HDEL, &[0..=u + 1]),
+                spec(1 + looks, O_GET, &[0..=u + 1]),
+                spec(1, O_HREAD, &[0..=u + 1, 0..=2]),
+                spec(1, O_HWRITE, &[0..=u + 1]),
+                spec(steps, O_STEP, &[0..=u - 1, 0..=1]),
+            ];
+            ops_strategy(&table, 600..=3000).prop_map(move |ops| {
+                let mut c = Case::new(prop, family);
+                c.set("coll", coll).set("val", val).set("cap", cap).set("U", u).set("snap", 0).set("dense", 0);
+                c.ops = ops;
+                c
+            })
+        })
+        .boxed()
+}
+
+pub fn seg_sparse_cases(prop: &'static str) -> BoxedStrategy<Case> {
+    let doms: Vec<(i64, i64, &'static str)> = vec![(0, 32, "i32"), (-16, 32, "i32"), (5, 17, "i32"), (0, 1000, "i64")];
+    (pick(&doms), 0..=2u32)
+        .prop_flat_map(move |((lo, dlen, rt), looks)| {
+            let table = vec![
+                spec(30, S_INS, &[0..=31, 0..=3, 0..=31, 0..=3, 1..=3]),
+                spec(12, S_PINS, &[0..=31, 0..=3, 1..=3]),
+                spec(30, S_ADV, &[0..=2]),
+                spec(1 + looks, S_QUERY, &[0..=31, 0..=3, 0..=31, 0..=3, 0..=35]),
+                spec(1, S_PQUERY, &[0..=31, 0..=3]),
+                spec(1, S_QUERYALL, &[]),
+            ];
+            ops_strategy(&table, 600..=2500).prop_map(move |ops| {
+                let mut c = Case::new(prop, "seg");
+                c.set("lo", lo).set("len", dlen).set("rtype", rt);
+                c.ops = ops;
+                c
+            })
+        })
+        .boxed()
+}
